@@ -2,6 +2,7 @@ import CoapVerif.Model.Limiter
 import CoapVerif.Lemmas.Limiter
 import CoapVerif.Lemmas.LimiterOrder
 import CoapVerif.Generated.LimiterWiring
+import CoapVerif.Model.LimiterWiring
 /-!
 # C16 — parallel-request limits are never exceeded and never leak
 
@@ -420,6 +421,88 @@ theorem waiting_justified (limit epLimit : Int) (evs : List Event) (w : Id) :
         rw [← hel, ← this]; omega
   · exact Or.inr (hsemfull w hw)
 
+/-! ### Connections made by the real constructors: options and servers
+
+For a connection **accepted by a server** the property reads: at most the limits the *server* was configured with
+(`options.WithLimitClientParallelRequest`, `WithLimitClientEndpointParallelRequest`).  The servers build the Config of an
+accepted connection from the client package's `DefaultConfig`; at the reviewed revision they assign neither limit, so accepted
+connections run with the defaults 1 / 1 — stricter than any configuration, hence within it.  A server may also hand down its
+own setting **of the same limit**; anything else (e.g. the total limit used as the per-path limit) is rejected by
+`server_and_option_wiring`, and `accepted_connection_within_configured` concludes the limits for whatever the extractor
+found. -/
+
+/-- a server may only leave a limit at its default or assign it from its own configuration of the same name -/
+def serverWiredOk (w : Generated.LimiterWiring.ServerWiring) : Bool :=
+  (w.base == "udpClient.DefaultConfig" || w.base == "client.DefaultConfig") &&
+  w.sets.all (fun a => (a.1 == "LimitClientParallelRequests" || a.1 == "LimitClientEndpointParallelRequests") && a.2 == "s.cfg." ++ a.1)
+
+/-- an `Apply` method of a limit option sets the Config field of its own limit from its own field -/
+def optionApplyOk (a : String × String × String × String) : Bool :=
+  (a.1 == "LimitClientParallelRequestOpt" && a.2.2.1 == "cfg.LimitClientParallelRequests" && a.2.2.2 == "o.limitClientParallelRequests") ||
+  (a.1 == "LimitClientEndpointParallelRequestOpt" && a.2.2.1 == "cfg.LimitClientEndpointParallelRequests" &&
+    a.2.2.2 == "o.limitClientEndpointParallelRequests")
+
+/-- The set-up that the hand-built harness connections bypass, read from the source on every run: the three servers build accepted
+    connections from `DefaultConfig` and assign a limit only from their own setting of that limit; the defaults are 1 / 1 (the
+    smallest limits there are); every `…Apply` method of the two limit options (client and server Configs of all transports) and
+    both `With…` constructors set the right field from the right value. -/
+theorem server_and_option_wiring :
+    Generated.LimiterWiring.serverWirings.map (·.pkg) = ["dtls/server", "tcp/server", "udp/server"] ∧
+    Generated.LimiterWiring.serverWirings.all serverWiredOk = true ∧
+    Generated.LimiterWiring.udpDefaultLimits = (1, 1) ∧ Generated.LimiterWiring.tcpDefaultLimits = (1, 1) ∧
+    Generated.LimiterWiring.optionApplies.all optionApplyOk = true ∧
+    Generated.LimiterWiring.optionApplies.map (fun a => (a.1, a.2.1)) =
+      [("LimitClientParallelRequestOpt", "TCPServerApply"), ("LimitClientParallelRequestOpt", "TCPClientApply"),
+       ("LimitClientParallelRequestOpt", "UDPServerApply"), ("LimitClientParallelRequestOpt", "DTLSServerApply"),
+       ("LimitClientParallelRequestOpt", "UDPClientApply"),
+       ("LimitClientEndpointParallelRequestOpt", "TCPServerApply"), ("LimitClientEndpointParallelRequestOpt", "TCPClientApply"),
+       ("LimitClientEndpointParallelRequestOpt", "UDPServerApply"), ("LimitClientEndpointParallelRequestOpt", "DTLSServerApply"),
+       ("LimitClientEndpointParallelRequestOpt", "UDPClientApply")] ∧
+    Generated.LimiterWiring.optionCtors =
+      [("WithLimitClientParallelRequest", "LimitClientParallelRequestOpt", "limitClientParallelRequests", "param"),
+       ("WithLimitClientEndpointParallelRequest", "LimitClientEndpointParallelRequestOpt", "limitClientEndpointParallelRequests", "param")] := by
+  decide
+
+/-- the seeded slip (C16-G: the DTLS server assigns the per-path limit from its total limit) is rejected -/
+def seededServerWiring : Generated.LimiterWiring.ServerWiring where
+  pkg := "dtls/server"
+  fn := "createConn"
+  base := "udpClient.DefaultConfig"
+  sets := [("LimitClientParallelRequests", "s.cfg.LimitClientParallelRequests"),
+           ("LimitClientEndpointParallelRequests", "s.cfg.LimitClientParallelRequests")]
+
+example : serverWiredOk seededServerWiring = false := by decide
+
+theorem effective_one_le (l : Int) : effective 1 ≤ effective l := by
+  have := effective_pos l
+  have e : effective 1 = 1 := by decide
+  omega
+
+/-- On a connection accepted by a server configured with `L` / `E` — whichever of the two limits the server hands down, the
+    other staying at its default 1 — the requests the server has in flight never exceed `E` per path nor `L` in total, in every
+    interleaving. -/
+theorem accepted_connection_within_configured (w : Generated.LimiterWiring.ServerWiring) (L E : Int) (evs : List Event) (k : Key) :
+    let lim := Model.LimiterWiring.acceptedLimits w (1, 1) L E
+    (inFlight (run (init lim.1 lim.2) evs) k : Int) ≤ effective E ∧
+    (inFlightTotal (run (init lim.1 lim.2) evs) : Int) ≤ effective L := by
+  intro lim
+  have h1 := endpoint_limit_inv lim.1 lim.2 evs k
+  have h2 := total_limit_inv lim.1 lim.2 evs
+  have e2 : effective lim.2 ≤ effective E := by
+    simp only [lim, Model.LimiterWiring.acceptedLimits]
+    split
+    · exact Int.le_refl _
+    · exact effective_one_le E
+  have e1 : effective lim.1 ≤ effective L := by
+    simp only [lim, Model.LimiterWiring.acceptedLimits]
+    split
+    · exact Int.le_refl _
+    · exact effective_one_le L
+  omega
+
+/-- at the reviewed revision: a DTLS server configured with 4 / 1 gives its accepted connections 1 / 1 -/
+example : Model.LimiterWiring.limitsFor "dtlssrv" 4 1 = (1, 1) ∧ Model.LimiterWiring.limitsFor "tcpcli" 4 1 = (4, 1) := by decide
+
 /-! ### Non-vacuity: concrete histories (limit 2, endpoint limit 1, three requests for one path) -/
 
 /-- the F6 scenario: owner 0 in flight, 1 and 2 parked, the non-head waiter 2 is cancelled -/
@@ -461,6 +544,9 @@ end CoapVerif.Props.C16
 section Audit
 open CoapVerif.Props.C16
 #print axioms every_request_path_is_limited
+#print axioms server_and_option_wiring
+#print axioms effective_one_le
+#print axioms accepted_connection_within_configured
 #print axioms endpoint_limit_inv
 #print axioms total_limit_inv
 #print axioms queue_is_arrival_order
